@@ -621,7 +621,7 @@ pub fn run(ctx: &Ctx) -> Report {
     });
     rep.merge(r);
 
-    if !ctx.miri && ctx.only.is_none() {
+    if ctx.strict() {
         for k in ["sentinel_pings_matched", "responses_compared_with_prediction", "more_results_set", "more_results_clear", "units_ok", "units_err", "units_resultset", "shape_contradictions_refused"] {
             rep.require(k, 1);
         }
